@@ -15,13 +15,25 @@ import (
 type Region struct {
 	All   bool
 	Items map[string][]func(a *Term) *Term
+	Roots map[string][]int // per item: id of the fresh object the item lives in (0: not a fresh object)
 	Desc  []string
+	curRoot int
 }
 
-func NewRegion() *Region { return &Region{Items: map[string][]func(a *Term) *Term{}} }
+func NewRegion() *Region {
+	return &Region{Items: map[string][]func(a *Term) *Term{}, Roots: map[string][]int{}}
+}
 
 func (r *Region) add(kind string, f func(a *Term) *Term) {
 	r.Items[kind] = append(r.Items[kind], f)
+	r.Roots[kind] = append(r.Roots[kind], r.curRoot)
+}
+
+func (r *Region) setRoot(a *Term) {
+	r.curRoot = 0
+	if rt, k := addrRoot(a); k == 1 && rt.K > 0 {
+		r.curRoot = rt.K
+	}
 }
 
 func (r *Region) Contains(u *Unit, kind string, a *Term) *Term {
@@ -37,6 +49,8 @@ func (r *Region) Contains(u *Unit, kind string, a *Term) *Term {
 
 // addCell adds every leaf cell of a value of type t located at address a.
 func (r *Region) addCell(u *Unit, a *Term, t types.Type) {
+	r.setRoot(a)
+	defer func() { r.curRoot = 0 }()
 	for _, lf := range u.leaves(t, nil) {
 		if lf.kind == "array" {
 			at := lf.t.Underlying().(*types.Array)
@@ -50,6 +64,8 @@ func (r *Region) addCell(u *Unit, a *Term, t types.Type) {
 
 // addElems adds elements [off, off+n) of the array object at base (n == nil: all indices).
 func (r *Region) addElems(u *Unit, base, off, n *Term, elem types.Type) {
+	r.setRoot(base)
+	defer func() { r.curRoot = 0 }()
 	for _, lf := range u.leaves(elem, nil) {
 		if lf.kind == "array" {
 			unsupported("region over nested arrays")
@@ -532,7 +548,7 @@ func (fr *frame) applyContract(st *State, bc *BoundContract, args []Val, pos tok
 // checkSubRegion: callee's modifies must lie inside the caller's declared frames.
 func (fr *frame) checkSubRegion(st *State, reg *Region, site string, pos token.Pos) {
 	u := fr.u
-	check := func(outer *Region, kind, label string) {
+	check := func(outer *Region, kind, label string, minFresh int) {
 		if outer == nil || outer.All {
 			return
 		}
@@ -540,7 +556,15 @@ func (fr *frame) checkSubRegion(st *State, reg *Region, site string, pos token.P
 			u.oblige(st, kind, label+" callee modifies everything: "+site, pos, u.C.False)
 			return
 		}
-		for k, fs := range reg.Items {
+		for k, all := range reg.Items {
+			// cells of objects allocated after the frame in question was entered do not belong to it
+			var fs []func(a *Term) *Term
+			for i, f := range all {
+				if rt := reg.Roots[k][i]; rt > minFresh {
+					continue
+				}
+				fs = append(fs, f)
+			}
 			if len(fs) == 0 {
 				continue
 			}
@@ -558,9 +582,9 @@ func (fr *frame) checkSubRegion(st *State, reg *Region, site string, pos token.P
 			u.oblige(st, kind, fmt.Sprintf("%s callee writes %s within frame: %s", label, k, site), pos, g)
 		}
 	}
-	check(u.fnRegion, "frame", "call")
+	check(u.fnRegion, "frame", "call", 0)
 	for _, lr := range u.loopRegion {
-		check(lr.region, "loopframe", lr.name+" call")
+		check(lr.region, "loopframe", lr.name+" call", lr.minFresh)
 	}
 }
 
